@@ -442,6 +442,9 @@ impl Engine {
             self.register_clones(out);
             return o;
         }
+        if opc == 90 {
+            return self.serde_op(r, out);
+        }
         if (100..=115).contains(&opc) {
             return self.guard_op(opc, r, out);
         }
